@@ -713,6 +713,34 @@ Definition eff_scope (x : query) : nat := scope_size x + List.length (outer_refs
 Definition is_sud (x : query) : bool :=
   match x with QSel _ _ _ _ _ _ _ _ _ _ _ _ _ _ | QUpd _ _ _ _ _ _ _ | QDel _ _ _ => true | _ => false end.
 
+(* ---- the references a statement is EXPECTED to print: the field leaves of its own clause items, resolved to the
+        in-statement table references, clause by clause (a GROUP BY / ORDER BY item replaced by a select alias prints none) ---- *)
+Definition tgt (cl : clause) (l : list (option tref)) : list (clause * option tref) := map (pair cl) l.
+Definition res_tabs (srcs : list tref) (i : item) : list (option tref) := map (resolve_otref srcs) (item_tables i).
+Definition sel_expected (gba : bool) (srcs : list tref) (selects : list item) (joins : list (jhow * source * jcond))
+    (wheres havings : option item) (groupbys : list item) (orderbys : list (item * option order)) : list (clause * option tref) :=
+  tgt ClSelect (flat_map (res_tabs srcs) selects)
+  ++ tgt ClOn (flat_map (res_tabs srcs) (on_items joins))
+  ++ tgt ClWhere (flat_map (res_tabs srcs) (opt_list wheres))
+  ++ tgt ClGroupBy (flat_map (fun y => match (if gba then alias_ref selects y else None) with
+                                       | Some _ => [] | None => res_tabs srcs y end) groupbys)
+  ++ tgt ClHaving (flat_map (res_tabs srcs) (opt_list havings))
+  ++ tgt ClOrderBy (flat_map (fun yd => match alias_ref selects (fst yd) with
+                                        | Some _ => [] | None => res_tabs srcs (fst yd) end) orderbys).
+Definition upd_expected (srcs : list tref) (sets : list (term * item)) (joins : list (jhow * source * jcond))
+    (wheres : option item) : list (clause * option tref) :=
+  tgt ClOn (flat_map (res_tabs srcs) (on_items joins))
+  ++ flat_map (fun fv => tgt ClSetTarget (field_tables (fst fv)) ++ tgt ClSetValue (res_tabs srcs (snd fv))) sets
+  ++ tgt ClWhere (flat_map (res_tabs srcs) (opt_list wheres)).
+Definition expected_refs (kin : kctx) (x : query) : list (clause * option tref) :=
+  match x with
+  | QSel c _ _ selects _ joins wheres havings groupbys orderbys _ _ _ _ =>
+      match selects with [] => [] | _ => sel_expected (k_gba (defaults c kin)) (q_srcs x) selects joins wheres havings groupbys orderbys end
+  | QUpd _ _ sets _ joins wheres _ => match sets with [] => [] | _ => upd_expected (q_srcs x) sets joins wheres end
+  | QDel _ _ wheres => tgt ClWhere (flat_map (res_tabs (q_srcs x)) (opt_list wheres))
+  | _ => []
+  end.
+
 (* ------------------------------------------------------------------------------------------- *)
 (* 5. schema objects                                                                            *)
 (* ------------------------------------------------------------------------------------------- *)
